@@ -389,8 +389,10 @@ class GridPoints:
             return False
         m = self._mesh
         mesh_equiv = [m[1] == m[2], m[2] == m[0], m[0] == m[1]]
+        s = self._is_shift
+        shift_equiv = [s[1] == s[2], s[2] == s[0], s[0] == s[1]]
         lattice_equiv = get_lattice_vector_equivalence([r.T for r in self._rotations])
-        return np.extract(lattice_equiv, mesh_equiv).all()
+        return np.extract(lattice_equiv, np.logical_and(mesh_equiv, shift_equiv)).all()
 
     def _fit_qpoints_in_BZ(self):
         qpolongset_in_BZ = get_qpoints_in_Brillouin_zone(
